@@ -3,7 +3,8 @@
 # Leg c08.history: a case is "<mode> <initial disk> <events>" (syntax in harness/legs_c08.go). The Go leg runs every
 # history in a fresh subprocess against the REAL server (langserver.CreateServer over channel.Direct, raw JSON, one
 # reader, request round trip as fence) in a temporary workspace, prints the folded publishDiagnostics view after every
-# event and - whenever no buffer has unsaved edits - the view of a FRESH server started on the files as they are then.
+# event and - whenever no buffer has unsaved edits - the view of a FRESH server started on the files as they are then and
+# told (didOpen) about the documents outside the workspace that are open.
 # The OCaml side prints what the Coq model (with the toy analysis of Proofs/EventsToy.v) predicts for both, what the
 # property demands, and the finding classes of the history.
 import vlib
@@ -191,6 +192,12 @@ SEEDS = [
     "A a=s,b=su1 oa;ca=c;ob;cb=u1;wCc=d1;xa;sb;xb",
     "A a=l oa;ca=ls;wMa=ll;wDa;sa;xa",
     "A a=l,b=c oa;ca=ls;wMa=ll+Cc=u1;wDb+Ma=s;ca=l;wMa=ss;sa",
+    # documents outside the workspace (p q): members of the project exactly while they are open
+    "A a=u1,p=d1 op;oa;ca=cu1;sa;xp",
+    "A a=rp,p=su1 op;cp=u1;sp;oa;xp;xa",
+    "A a=u1u2,p=d1s,q=d2 op;oq;cp=d1;xq;sp;oa;ca=u2u1;xp;sa",
+    "A a=rprq,b=u1,p=d1,q=l oq;op;wMb=u1u2;xq;wDa;wCa=rq;xp",
+    "A p=su1 op;cp=u1;xp;op;cp=ss;sp;xp",
 ]
 
 
@@ -200,7 +207,7 @@ def gen_conformant(rng, tier):
     for k in range(n):
         m = rng.random()
         calm = m < 0.35                      # stays mostly inside the guard of C08_incremental_eq_fresh
-        init, evs = gen_history(rng, rng.choice([3, 5, 8, 10, 12, 15]), p_outside=0.0 if calm or m < 0.8 else 0.15, calm=calm)
+        init, evs = gen_history(rng, rng.choice([3, 5, 8, 10, 12, 15]), p_outside=0.0 if calm or m < 0.7 else 0.3, calm=calm)
         out.append(case_of("A" if rng.random() < 0.85 else "E", init, evs))
     return out
 
